@@ -85,6 +85,7 @@ def _write_if_changed(path, text):
             return False
     except FileNotFoundError:
         pass
+    os.makedirs(os.path.dirname(path), exist_ok=True)
     with open(path + '.tmp', 'w') as f:
         f.write(text)
     os.replace(path + '.tmp', path)
